@@ -16,7 +16,7 @@ def t3(rep, tier, seed):
             B = 3
             if any(v > B for v in seq):
                 dom.append({"algo": algo, "values": seq, "B": B})
-        fmts = ("dict", "names", "array") if algo != "bc" else ("array",)
+        fmts = ("dict", "names", "array", "dict+valueof") if algo != "bc" else ("array",)
         dom += [dict(d, fmt=f, ot=ot) for d in dom[::17] for f in fmts for ot in OTS]
         dom += [dict(d, ot=ot) for d in dom[:2000:13] for ot in OTS if "ot" not in d]
         for _ in range(100 if tier == "quick" else 2000):
